@@ -3,7 +3,6 @@ package pnet
 import (
 	"context"
 	"encoding/json"
-	"errors"
 	"fmt"
 	"os"
 	"path/filepath"
@@ -245,23 +244,24 @@ func runLim(c LimCase, cs *kit.CaseStats) error {
 					case 1:
 						err = conns[i].Call(&gateway.RPCSendCheckpoint{Index: types.ChainIndex{Height: 7, ID: bogus}}, 20*time.Second)
 					default:
-						// the id of one RPC followed by the request body of another:
-						// the length prefix promises hashes that never come
+						// the id of one RPC followed by the request body of another: the
+						// length prefix announces far more hashes than a request may
+						// hold, the decoder gives up at once and the handler ends with
+						// an error (the answer is awaited, so the handler is known to
+						// have run before the burst starts)
 						err = func() error {
 							st, err := conns[i].T.DialStream()
 							if err != nil {
 								return err
 							}
+							defer st.Close()
 							st.SetDeadline(time.Now().Add(20 * time.Second))
 							if err := st.WriteID(&gateway.RPCSendTransactions{}); err != nil {
 								return err
-							} else if err := st.WriteRequest(&gateway.RPCSendHeaders{Index: types.ChainIndex{Height: 7, ID: bogus}, Max: 9}); err != nil {
+							} else if err := st.WriteRequest(&gateway.RPCSendHeaders{Index: types.ChainIndex{Height: 7, ID: bogus}, Max: 1 << 40}); err != nil {
 								return err
 							}
-							// hang up the stream: the handler's decoder meets the end of
-							// the stream in the middle of the promised hashes
-							st.Close()
-							return errors.New("stream closed by the client")
+							return st.ReadResponse(&gateway.RPCSendTransactions{})
 						}()
 					}
 					if err == nil {
